@@ -201,6 +201,12 @@ func (r *WordRenderer) renderInlineContent(node ast.Node, para *document.Paragra
 			}
 			para.AddFormattedText(text, format)
 
+		case *ast.AutoLink:
+			// 自动链接 <http://...> 没有子节点，其可见文本就是链接本身
+			para.AddFormattedText(string(n.Label(r.source)), &document.TextFormat{
+				FontColor: "0000FF", // 蓝色
+			})
+
 		case *ast.Image:
 			r.renderImageInline(n, para)
 		case *extast.Strikethrough:
@@ -415,6 +421,8 @@ func (r *WordRenderer) extractTextContentRecursive(node ast.Node, buf *strings.B
 		switch n := child.(type) {
 		case *ast.Text:
 			buf.Write(n.Segment.Value(r.source))
+		case *ast.AutoLink:
+			buf.Write(n.Label(r.source))
 		default:
 			r.extractTextContentRecursive(child, buf)
 		}
